@@ -18,7 +18,7 @@ LEVEL = 'other'
 MANIFEST = {
     'engine': 'pysym+frames+lrtab',
     'level': 'other',
-    'technique': 'frame (write-effect) contracts checked by symbolic execution with provenance tracking and a repository-wide census of module-level mutable state; table obligation on conflict resolution; hash-seed digests as bounded stand-in',
+    'technique': 'frame (write-effect) contracts checked by symbolic execution with provenance tracking and a repository-wide census of module-level and class-level mutable state, run-time re-binding of module names and memoisation decorators; table obligation on conflict resolution; hash-seed digests as bounded stand-in',
     'text': 'Isolation is reduced to non-interference: entry points are proved to allocate their lexer/parser per call and to write only '
             'fresh objects; all module-level mutable state of the library is enumerated and its writers checked; the planner\'s writes '
             'into caller-supplied predictor metadata are a genuine defect (known finding). Interleavings themselves are not explored.',
